@@ -118,7 +118,10 @@ FIELD_ORDER = ["chain_id", "res_name", "name_elem", "ins_code", "res_id", "atom_
                "b_factor32", "occupancy", "charge", "hetero", "box"]
 
 
-def ladder(shape, h36, reduced):
+NAME_P = NAME_R + [["C", "C"], ["1HB2", "H"], ["FE1", "FE"], ["CA", "CA"], ["CA", ""], ["F", "Fe"]]
+
+
+def ladder(shape, h36, reduced, names="full"):
     """All single deviations [field, loc, value] of a shape."""
     _, m, n = shape
     out = []
@@ -145,6 +148,8 @@ def ladder(shape, h36, reduced):
         out += [["res_name", p, v] for v in (RESN_R if reduced else RESN_FULL)]
         if reduced:
             out += [["name_elem", p, v] for v in NAME_R]
+        elif names == "pair":
+            out += [["name_elem", p, v] for v in NAME_P]
         else:
             out += [["name_elem", p, [a, e]] for a in NAMES for e in ELEMS]
         out += [["ins_code", p, v] for v in (INS_R if reduced else INS_FULL)]
@@ -718,9 +723,10 @@ def struct_specs(tier):
     for h in (False, True):
         for sh in (A11, A12, A13, S11, S21, S22, S32):
             specs.append({"shape": sh, "h36": h, "mode": "singles", "parts": 1})
-        specs.append({"shape": A11, "h36": h, "mode": "pairs", "parts": 10})
-        specs.append({"shape": A12, "h36": h, "mode": "pairs_atom1", "parts": 10})
-        specs.append({"shape": S21, "h36": h, "mode": "pairs", "parts": 12})
+        nm = "full" if tier == "thorough" else "pair"
+        specs.append({"shape": A11, "h36": h, "mode": "pairs", "parts": 10, "names": nm})
+        specs.append({"shape": A12, "h36": h, "mode": "pairs_atom1", "parts": 10, "names": nm})
+        specs.append({"shape": S21, "h36": h, "mode": "pairs", "parts": 12, "names": nm})
         for sh in (A12, A13, S11, S22):
             specs.append({"shape": sh, "h36": h, "mode": "rpairs", "parts": 2})
         if tier == "thorough":
@@ -739,9 +745,9 @@ def struct_cases(spec):
         for d in ladder(sh, h, False):
             yield [d]
     elif mode == "pairs":
-        yield from subsets(ladder(sh, h, False), 2, same_atom_only=True)
+        yield from subsets(ladder(sh, h, False, spec.get("names", "full")), 2, same_atom_only=True)
     elif mode == "pairs_atom1":
-        devs = [d for d in ladder(sh, h, False) if atom_of(d) in (1, None)]
+        devs = [d for d in ladder(sh, h, False, spec.get("names", "full")) if atom_of(d) in (1, None)]
         yield from subsets(devs, 2)
     elif mode == "xpairs":  # pairs on different atoms (same-atom pairs are covered by 'pairs')
         devs = ladder(sh, h, False)
@@ -760,7 +766,8 @@ def struct_cases(spec):
 def bounds(tier):
     return {
         "struct_shapes": "array n=1,2,3; stack (depth,n) = (1,1),(2,1),(2,2),(3,2)",
-        "struct_deviations": "singles everywhere; all pairs on (array,1), on atom 2 of (array,2), on (stack 2,1); "
+        "struct_deviations": "singles everywhere; all pairs on (array,1), on atom 2 of (array,2), on (stack 2,1) "
+                             + ("" if tier == "thorough" else "(atom name x element restricted to 13 of 105 values inside pairs)") + "; "
                              "reduced-ladder pairs on the other shapes"
                              + ("; reduced triples on array n=1,2; full cross-atom pairs on (array,2),(stack 2,2)"
                                 if tier == "thorough" else ""),
@@ -912,12 +919,16 @@ def run_codec(shard, ctx):
         nviol = 0
         for kind, first, start, count in blocks:
             klass = "width%d_%s" % (w, kind)
-            i = start
             n_nontriv = 0
-            for s in M.hy36_block_strings(w, kind, first):
-                if what == "edges" and W5_EDGE <= i - start < count - W5_EDGE:
-                    i += 1
-                    continue
+            if what == "edges" and count > 2 * W5_EDGE:
+                # block edges: head from the odometer, tail from the positional definition
+                # (the two definitions are compared on every value of widths 1-4 by the sweeps)
+                head = zip(range(start, start + W5_EDGE), M.hy36_block_strings(w, kind, first))
+                tail = ((j, M.hy36_encode(j, w)) for j in range(start + count - W5_EDGE, start + count))
+                pairs = itertools.chain(head, tail)
+            else:
+                pairs = zip(range(start, start + count), M.hy36_block_strings(w, kind, first))
+            for i, s in pairs:
                 # hot loop: the common, agreeing case is decided with two calls
                 try:
                     good = enc(i, w) == s and dec(s) == i
@@ -929,7 +940,6 @@ def run_codec(shard, ctx):
                     nviol += ctx.viol_total - before
                     if nviol > 50:
                         break
-                i += 1
                 n_nontriv += 1
             done = n_nontriv
             ctx.ev(done, done if kind != "dec" else 0)
